@@ -55,6 +55,9 @@ func runC11(c *Ctx) {
 	// failed step and no wake-up is lost
 	c.ruleDispatcherLoop("R11.7")
 	c.ruleNotifyAfterChange("R11.8")
+	// "only after the worker function has returned": the completion follows the return of the library's wrapper, which
+	// therefore must not return while the user's function is still running
+	c.ruleWorkerFuncSynchronous("R11.9")
 }
 
 func (c *Ctx) ruleWhoAcknowledges(rule string) {
@@ -320,6 +323,9 @@ func runC12(c *Ctx) {
 	c.Rep.rule("R12.5", "def-use + reachability", "persistent queues load job configs per job from the bound worker's configuration (also through helpers)", 4)
 	c.ruleJobConfigsPerJob("R12.5", c.P.FuncByKey("loadJobConfigs"))
 	c.ruleDefaultConfigsUnreachable("R12.5", c.P.FuncByKey("loadJobConfigs"))
+	// ... and it is stored as given: id and data are written only in the constructors, WithJobId stores its argument
+	// unchanged, the wire struct is filled from exactly those fields
+	c.ruleIdentityImmutable("R12.6")
 }
 
 func (c *Ctx) ruleStatusTablesInverse(rule string) {
@@ -704,6 +710,9 @@ func runC13(c *Ctx) {
 	}
 	c.ruleDecodeFailure("R13.3")
 	c.ruleNotifyAfterChange("R13.4")
+	// an announcement only drives the consumer if the wake-up is really attempted: the send on the signal channel is
+	// tried under the (blocking) read lock on every call, never skipped because a lock was busy or a status was seen
+	c.ruleProtectedSends("R13.5")
 }
 
 func (c *Ctx) ruleDistributedBinders(rule string) {
